@@ -1188,7 +1188,9 @@ class ConfigInformation:
         # Serialize identifier and typename
         jsonfields = state_dict["fields"] = {}
         for argument, value in self.xpmvalues():
-            with context.push(argument.name) as var_path:
+            with context.push(str(len(objects))), context.push(
+                argument.name
+            ) as var_path:
                 if argument.is_data and value is not None:
                     assert isinstance(
                         value, Path
